@@ -469,10 +469,37 @@ def _arg_candidates(raw):
     return res
 
 
+# Ops that must not be shrunk: their arguments carry the implementation's own answer (the driver evaluates the property
+# on it), or their specification stream is only meaningful for generator-produced inputs (outputs of Build, ...).
+NO_SHRINK_OPS = {"keyring.verify_jsons", "keyring.direct_fetch", "keyring.perspective_fetch",
+                 "event.roundtrip", "event.idprops", "event.iddiff", "event.build", "redact.build", "limits.build", "limits.build_fine",
+                 "vertable.built"}
+
+
+def shrinkable(opname):
+    return not (opname in NO_SHRINK_OPS or opname.startswith("conc.") or opname.endswith("_props") or opname.endswith("props"))
+
+
+def _pattern(im, model_line):
+    """Which of the three streams agree: a smaller input must fail in the same way, not just fail."""
+    m = model_line.split("\t")
+    mo, sp = m[0], (m[1] if len(m) > 1 else None)
+    cls = lambda x: None if x is None else ("panic" if x.startswith("panic:") else x.split(":")[0])
+    return (im == mo, sp is None or sp.startswith("unspecified"), sp is not None and im == sp, sp is not None and mo == sp,
+            cls(im) == "panic", mo.startswith("skip"))
+
+
 def shrink(prop, exe, opline, kind, findings=(), budget_s=20.0):
     """Greedy batched delta debugging: returns (smaller op line, impl, driver line) that still fails with the same
-    kind ('violation' / 'tie') and is not a known finding — or None when nothing smaller fails."""
+    kind ('violation' / 'tie') and the same agreement pattern between the streams, and is not a known finding — or None
+    when nothing smaller fails that way."""
     t0 = time.time()
+    if not shrinkable(opline.split("\t", 1)[0]):
+        return None
+    a0, b0 = run_pair(exe, [opline])
+    if not a0 or not b0 or classify_line(a0[0], b0[0]) != kind:
+        return None     # does not reproduce in isolation (state carried between ops?): leave it alone
+    pat0 = _pattern(a0[0], b0[0])
     best, best_out = opline, None
     improved = True
     rounds = 0
@@ -498,7 +525,7 @@ def shrink(prop, exe, opline, kind, findings=(), budget_s=20.0):
                 model.append(b[0] if b else "crash")
             cands = cands[:60]
         for c, im, mo in zip(cands, impl, model):
-            if classify_line(im, mo) == kind and not any(f.matches(prop, c) for f in findings):
+            if classify_line(im, mo) == kind and _pattern(im, mo) == pat0 and not any(f.matches(prop, c) for f in findings):
                 best, best_out = c, (im, mo)
                 improved = True
                 break
